@@ -135,13 +135,17 @@ def spec(tier, seed):
     npool = 14 if tier == "quick" else len(POOL_TEXT)
     for hi, h in enumerate(HEADS):
         fn = "h%d" % hi
+        # selectors are folded into their boxes (no rejected paths); unused argument selectors are not forked on
         L = ["def %s(n: int, a0: int, a1: int, a2: int) -> bool:" % fn, '    """',
-             "    pre: 0 <= n <= %d and 0 <= a0 < %d and 0 <= a1 < %d and 0 <= a2 < %d" % (2 if tier == "quick" else 3, npool, npool, 6 if tier == "quick" else 12),
-             "    pre: (n >= 1 or a0 == 0) and (n >= 2 or a1 == 0) and (n >= 3 or a2 == 0)",
-             "    post: _", '    """', "    return tree_ok(%d, n, a0, a1, a2)" % hi]
+             "    post: _", '    """',
+             "    k = _sk.box(n, 0, %d)" % (2 if tier == "quick" else 3),
+             "    b0 = _sk.box(a0, 0, %d) if k >= 1 else 0" % (npool - 1),
+             "    b1 = _sk.box(a1, 0, %d) if k >= 2 else 0" % (npool - 1),
+             "    b2 = _sk.box(a2, 0, %d) if k >= 3 else 0" % ((6 if tier == "quick" else 12) - 1),
+             "    return tree_ok(%d, k, b0, b1, b2)" % hi]
         obs.append(Ob(fn, "\n".join(L), sample="(%s ARGS...) with 0..%d arguments from the atom pool" % (h, 2 if tier == "quick" else 3), group="head"))
     # nested: each head as the argument of `do`, `setv x`, and a call, with one argument
-    tw = "\n".join(["def twin0(n: int, a0: int) -> bool:", '    """', "    pre: 0 <= n <= 1 and 0 <= a0 < 3", "    post: _", '    """', "    tree_ok(0, n, a0, 0, 0)", "    return False"])
+    tw = "\n".join(["def twin0(n: int, a0: int) -> bool:", '    """', "    post: _", '    """', "    tree_ok(0, _sk.box(n, 0, 1), _sk.box(a0, 0, 2), 0, 0)", "    return False"])
     obs.append(Ob("twin0", tw, twin=True, group="twin"))
     return {
         "preamble": PREAMBLE,
